@@ -280,7 +280,9 @@ func (e *Env) CheckColl(when string) {
 // ExpectedStore is what the lower level must hold at a quiescent moment.
 func (e *Env) ExpectedStore() *Node { return e.States[e.Persisted] }
 
-// CheckStore: the store's own snapshot must equal States[Persisted].
+// CheckStore: the store's own snapshot must equal States[Persisted].  While
+// a round is held in the middle (its footer may or may not be published yet)
+// the state that round is carrying is accepted as well.
 func (e *Env) CheckStore(when string) {
 	switch e.Cfg.Backing {
 	case "store":
@@ -292,6 +294,11 @@ func (e *Env) CheckStore(when string) {
 			e.Failf("%s: Store.Snapshot returned nil", when)
 		}
 		d := CompareSnapshot(snap, e.ExpectedStore(), e.readOpts(), "store")
+		if d != "" && e.pState == pHeld && len(e.base) > 0 {
+			if d2 := CompareSnapshot(snap, e.States[e.base[len(e.base)-1]], e.readOpts(), "store"); d2 == "" {
+				d = ""
+			}
+		}
 		snap.Close()
 		if d != "" {
 			e.Failf("%s: store content differs from reference after %d of %d batches: %s",
